@@ -50,7 +50,7 @@ def is_terminated_before(j):
 def text_axioms():
     """the specification of the text and of line / column numbering"""
     return z3.And(
-        z3.ForAll([k], z3.Implies(k >= 0, z3.And(V.is_str(CH(k)), ONECHAR(CH(k)))), patterns=[CH(k)]),
+        z3.ForAll([k], z3.And(V.is_str(CH(k)), ONECHAR(CH(k))), patterns=[CH(k)]),
         LINE(0) == INIT_LINE, COL(0) == INIT_COL,
         z3.ForAll([k], z3.Implies(k >= 1, LINE(k) == z3.If(is_terminated_before(k), LINE(k - 1) + 1, LINE(k - 1))), patterns=[LINE(k)]),
         z3.ForAll([k], z3.Implies(k >= 1, COL(k) == z3.If(is_terminated_before(k), 0, COL(k - 1) + 1)), patterns=[COL(k)]),
@@ -186,6 +186,23 @@ def INV_parts(eng, st, self_, as_goal=False):
     ]
 
 
+_WF = None
+
+
+def WF(eng, st, self_):
+    """An *opaque name* for INV, used wherever a client of StreamReader (a form reader) states or assumes that the
+    reader is well-formed: the clients' proofs only pass it from one StreamReader operation to the next, so they do
+    not need - and are not slowed down by - the quantified definition.  It is a function of everything INV reads.
+    The StreamReader operations themselves are proved against the real INV: their contracts read
+    "INV before => INV after", and it is exactly this implication that a client uses under the name WF."""
+    global _WF
+    lib.deque_history(st, z3.IntVal(0))
+    if _WF is None:
+        _WF = z3.Function("stream_reader_well_formed", V.Val, V.Val, V.Val, V.Val, V.Val, V.Val, st.aux["dqv"].sort(), st.aux["dqn"].sort(), z3.IntSort(), z3.BoolSort())
+    return _WF(self_, fld(st, self_, "_idx"), fld(st, self_, "_buffer"), fld(st, self_, "_line"), fld(st, self_, "_col"), fld(st, self_, "_pushback_depth"),
+               st.aux["dqv"], st.aux["dqn"], nreads(st))
+
+
 def INV(eng, st, self_):
     return z3.And(*[f for _, f in INV_parts(eng, st, self_)])
 
@@ -213,9 +230,12 @@ def build(active_known=frozenset()):
         """a StreamReader operation: proved here once, and used *by contract* wherever it is called (by the other
         operations and by the form readers)"""
         c = pack.contract(mod + name, modular=True)
+        c.inline_within = mod  # the operations call each other: inside their own proofs the real bodies are inlined
         c.param("self", OBJ(SR))
         # (universal clauses: quantified where the clause is assumed, stated for an arbitrary index where it is a goal)
-        c.requires("the reader is well-formed", lambda a: z3.And(*[f for _, f in INV_parts(a.eng, a.pre.st, a.self, as_goal=not a.assuming)]))
+        # inside the operation's own proof the invariant is the real one (assumed before, proved after, clause by clause);
+        # at a call site it goes by its opaque name WF (proved before the call, assumed after it)
+        c.requires("the reader is well-formed", lambda a: z3.And(*[f for _, f in INV_parts(a.eng, a.pre.st, a.self)]) if a.assuming else WF(a.eng, a.pre.st, a.self))
         inv_after(c)
         c.modifies_ = ["_idx"] if moves else []
         if reads:
@@ -228,7 +248,12 @@ def build(active_known=frozenset()):
         """one postcondition per conjunct of the invariant"""
         for i in range(6):
             nm = INV_PART_NAMES[i]
-            fn = lambda a, i=i: INV_parts(a.eng, a.post.st, a.self, as_goal=not a.assuming)[i][1]  # noqa: E731
+
+            def fn(a, i=i):
+                if a.assuming:  # call site: the whole invariant under its opaque name (once is enough)
+                    return WF(a.eng, a.post.st, a.self) if i == 0 else z3.BoolVal(True)
+                return INV_parts(a.eng, a.post.st, a.self, as_goal=True)[i][1]
+
             c.ensures("the reader stays well-formed: " + nm, fn)
             if on_raise:
                 c.ensures_on_raise("the reader stays well-formed: " + nm, fn)
@@ -384,7 +409,7 @@ def add_prefix_readers(pack):
             for nm in ("dqv", "dqn"):
                 if nm in s.aux:
                     s.aux[nm] = z3.Const(V.fresh_name(nm), s.aux[nm].sort())
-            s.assume(INV(e, s, r), e.external_ref_fact(s, res))
+            s.assume(WF(e, s, r), e.external_ref_fact(s, res))
             s.assume(z3.Implies(V.is_ref(res), z3.Or(*[V.cls_of(V.Val.a(res)) == e.class_id(fc) for fc in FORM_CLASSES])))
             s_raise = s.copy()
             s.assume((res == fld(s, ctx, "_eof")) == NOMORE(p))
@@ -426,7 +451,7 @@ def add_prefix_readers(pack):
         c.param("ctx", OBJ(RC))
         c.setup(psetup)
         c.requires("the stream reader is well-formed and stands on the prefix character",
-                   lambda a: z3.And(INV(a.eng, a.pre.st, reader_of(a)), CH(pos(a.pre.st, reader_of(a))) == V.mk_str(ch)))
+                   lambda a: z3.And(WF(a.eng, a.pre.st, reader_of(a)), CH(pos(a.pre.st, reader_of(a))) == V.mk_str(ch)))
         c.raises(rd.SyntaxError)
 
         def owed(a):
@@ -457,6 +482,51 @@ def add_prefix_readers(pack):
     prefix("_read_comment_macro", "_")
     prefix("_read_meta", "^", qual="_read_meta")
 
+    # ---- whitespace: skipped up to, and never beyond, the first character that is not whitespace (or a comma)
+    import sys as _sys
+
+    WS_CHARS = [chr(cp) for cp in range(_sys.maxunicode + 1) if chr(cp).isspace()] + [","]
+
+    def is_ws(c):
+        return z3.Or(*[c == V.mk_str(w) for w in WS_CHARS])
+
+    c = pack.contract("basilisp.lang.reader:_consume_whitespace", modular=True)
+    c.param("ctx", OBJ(RC))
+    c.setup(psetup)
+    c.requires("the stream reader is well-formed", lambda a: WF(a.eng, a.pre.st, reader_of(a)))
+    c.raises()
+    c.modifies_ = ["_idx"]
+    c.modifies_aux = ("dqv", "dqn")
+    c.modifies_ghost = ("n_read",)
+
+    def ws_inv(ctx):
+        st, pre = ctx.st, ctx.entry.st
+        r = fld(pre, ctx["ctx"], "_reader")
+        first, p = pos(pre, r), pos(st, r)
+        return [
+            ("the stream reader stays well-formed and is still the context's reader", z3.And(WF(ctx.eng, st, r), fld(st, ctx["ctx"], "_reader") == r, ctx["reader"] == r)),
+            ("char is the character under the cursor, which has not moved back", z3.And(p >= first, ctx["char"] == CH(p))),
+            ("every character skipped so far is whitespace",
+             forall_k(z3.Implies(z3.And(k >= first, k < p), is_ws(CH(k))), CH(k)) if ctx.assuming else z3.Implies(z3.And(ANYIDX >= first, ANYIDX < p), is_ws(CH(ANYIDX)))),
+        ]
+
+    c.loop(0, invariant=ws_inv, frame=["_idx"], lists=False, ghost=("n_read",), aux=("dqv", "dqn"))
+
+    def ws_post(a):
+        pre, post = a.pre.st, a.post.st
+        r = reader_of(a)
+        p0, p = pos(pre, r), pos(post, r)
+        cl = [WF(a.eng, post, r), fld(post, a.ctx, "_reader") == r, p >= p0, a.result == CH(p), z3.Not(is_ws(CH(p))),
+              fld(post, a.ctx, "_eof") == fld(pre, a.ctx, "_eof")]
+        if not a.assuming:
+            cl.append(z3.Implies(z3.And(ANYIDX >= p0, ANYIDX < p), is_ws(CH(ANYIDX))))
+        return z3.And(*cl)
+
+    c.ensures("the cursor stops on the first character from the old position on that is not whitespace (comma included), which is returned; "
+              "nothing but whitespace was skipped; the reader stays well-formed", ws_post)
+    c.replay(lambda m, ctx, ob: PREFIX_REPLAY)
+    c.replay_without_model = True
+
     # ---- line comments: a comment ends at the first line terminator - LF or CR, whatever the line-ending style - or
     # at the end of the text; it must not swallow anything after that
     def is_nl(c):
@@ -466,7 +536,7 @@ def add_prefix_readers(pack):
     c.param("ctx", OBJ(RC))
     c.setup(psetup)
     c.requires("the stream reader is well-formed and stands on the comment character",
-               lambda a: z3.And(INV(a.eng, a.pre.st, reader_of(a)), z3.Or(CH(pos(a.pre.st, reader_of(a))) == V.mk_str(";"), CH(pos(a.pre.st, reader_of(a))) == V.mk_str("!"))))
+               lambda a: z3.And(WF(a.eng, a.pre.st, reader_of(a)), z3.Or(CH(pos(a.pre.st, reader_of(a))) == V.mk_str(";"), CH(pos(a.pre.st, reader_of(a))) == V.mk_str("!"))))
     c.raises()
 
     def comment_inv(ctx):
@@ -475,7 +545,7 @@ def add_prefix_readers(pack):
         # (the loop is entered right after the comment character was consumed: `pre` is the state at loop entry)
         first, p = pos(pre, r), pos(st, r)
         return [
-            ("the stream reader stays well-formed and is still the context's reader", z3.And(INV(ctx.eng, st, r), fld(st, ctx["ctx"], "_reader") == r, ctx["reader"] == r)),
+            ("the stream reader stays well-formed and is still the context's reader", z3.And(WF(ctx.eng, st, r), fld(st, ctx["ctx"], "_reader") == r, ctx["reader"] == r)),
             ("the cursor has not moved back", p >= first),
             ("no character of the comment so far ends a line or the text",
              forall_k(z3.Implies(z3.And(k >= first, k < p), z3.And(z3.Not(is_nl(CH(k))), CH(k) != V.mk_str(""))), CH(k))),
